@@ -8,17 +8,20 @@ MH = os.path.join(engine.VERIF, 'macroharness')
 MACROLIB = os.path.join(MH, 'target', 'debug', 'verif-macroharness')
 DRIVER = os.path.join(engine.LEAN, '.lake', 'build', 'bin', 'driver')
 
-TY = {'own': 'u32', 'ref': '&u32', 'refref': '&&u32', 'mut': '&mut u32', 'imp': "&mut Vec<&'static u32>", 'slice': '&[u32]', 'mutdyn': '&mut dyn core::fmt::Debug'}
+TY = {'own': 'u32', 'ref': '&u32', 'refref': '&&u32', 'mut': '&mut u32', 'imp': "&mut Vec<&'static u32>", 'slice': '&[u32]', 'mutdyn': '&mut dyn core::fmt::Debug',
+      'gt': 'T', 'gu': 'U', 'impl': "impl Into<u32> + 'static"}   # gt: the trait's type parameter, gu: the method's, impl: an impl-Trait parameter
 RECV = {'ref': '&self', 'mut': '&mut self', 'own': 'self', 'rc': 'self: Rc<Self>', 'arc': 'self: Arc<Self>', 'pin': 'self: Pin<&mut Self>',
         'tref': 'self: &Self', 'tmut': 'self: &mut Self'}   # longhand spellings: classified like an owned receiver by the macro
 
 class Method:
-    def __init__(self, name, recv, params, is_async=False, rpit=False, default=False, unmock=('none',)):
+    def __init__(self, name, recv, params, is_async=False, rpit=False, default=False, unmock=('none',), mgen=False):
         self.name, self.recv, self.params, self.is_async, self.rpit, self.default, self.unmock = name, recv, params, is_async, rpit, default, unmock
+        self.mgen = mgen or ('gu' in params)     # the method declares `<U: 'static>`
 
 class Trait:
-    def __init__(self, ident, name, api, methods):
+    def __init__(self, ident, name, api, methods, tgen=False):
         self.ident, self.name, self.api, self.methods = ident, name, api, methods   # api: ('mod', 'TMock') | ('flat',) | ('hidden',)
+        self.tgen = tgen or any('gt' in m.params for m in methods if m.recv != 'static')   # the trait declares `<T: 'static>`
     def attr(self):
         parts = []
         if self.api[0] == 'mod':
@@ -40,23 +43,31 @@ class Trait:
                 ms.append(f"fn {m.name}(x: u32) -> u32 {{ x }}")
                 continue
             ps = ', '.join([RECV[m.recv]] + [f"p{i}: {TY[c]}" for i, c in enumerate(m.params)])
+            g = "<U: 'static>" if m.mgen else ''
             if m.rpit:
-                sig = f"fn {m.name}({ps}) -> impl Future<Output = u32>"
+                sig = f"fn {m.name}{g}({ps}) -> impl Future<Output = u32>"
                 body = " { async { 0 } }" if m.default else ";"
             else:
-                sig = f"{'async ' if m.is_async else ''}fn {m.name}({ps}) -> u32"
+                sig = f"{'async ' if m.is_async else ''}fn {m.name}{g}({ps}) -> u32"
                 body = " { 0 }" if m.default else ";"
             ms.append(sig + body)
-        return f"trait {self.name} {{ " + ' '.join(ms) + " }"
+        tg = "<T: 'static>" if self.tgen else ''
+        return f"trait {self.name}{tg} {{ " + ' '.join(ms) + " }"
     def shape(self):
         api = {'mod': lambda: f"mod:{self.api[1]}", 'flat': lambda: 'flat', 'hidden': lambda: 'hidden'}[self.api[0]]()
-        out = f"shape {self.ident} trait={self.name} api={api}"
+        out = f"shape {self.ident} trait={self.name} api={api} tgen={int(self.tgen)}"
         for m in self.methods:
             if m.recv == 'static':
                 continue
             um = 'none' if m.unmock[0] == 'none' else (f"path@{m.unmock[1]}" if m.unmock[0] == 'path' else f"listed@{m.unmock[1]}@{';'.join(m.unmock[2])}")
-            params = ','.join(f"p{i}:{c}" for i, c in enumerate(m.params))
-            out += f" | m name={m.name} recv={m.recv} async={int(m.is_async)} rpit={int(m.rpit)} default={int(m.default)} unmock={um} params={params} flat=Flat_{m.name}"
+            k = 0; plist = []
+            for i, c in enumerate(m.params):
+                if c == 'impl':
+                    plist.append(f"p{i}:impl{k}"); k += 1
+                else:
+                    plist.append(f"p{i}:{c}")
+            params = ','.join(plist)
+            out += f" | m name={m.name} recv={m.recv} async={int(m.is_async)} rpit={int(m.rpit)} default={int(m.default)} unmock={um} params={params} mgen={int(m.mgen)} flat=Flat_{m.name}"
         return out
     def macro_input(self):
         return f"item {self.ident}\nattr {self.attr()}\ntrait {self.source()}\nend\n"
